@@ -209,10 +209,15 @@ def _merge_fi(a: T, b: T):
     return keep, dims, rep, [ma[i] for i in rep]
 
 
-def _binary(a: T, b: T, f, sum_repeated: bool, shape=None, comp_of=None):
+def _binary(a: T, b: T, f, sum_repeated, shape=None, comp_of=None):
+    """sum_repeated: True (implicit summation, the `*` operator), False (overlap is an error),
+    or "share" (node-level semantics of Product/Indexed: a shared free index stays free)."""
     keep, dims, rep, rdims = _merge_fi(a, b)
-    if rep and not sum_repeated:
+    if rep and sum_repeated is False:
         raise SemError("overlapping free indices not allowed here")
+    if rep and sum_repeated == "share":
+        keep, dims = keep + rep, dims + rdims
+        rep, rdims = [], []
     order = sorted(range(len(keep)), key=lambda k: keep[k].id)
     keep = [keep[k] for k in order]
     dims = [dims[k] for k in order]
@@ -252,6 +257,8 @@ def t_add(a: T, b: T) -> T:
 
 
 def _binary_same_fi(a: T, b: T, f):
+    if a.fimap() != b.fimap():
+        raise SemError(f"free indices carry different dimensions: {dict((str(k), v) for k, v in a.fimap().items())} vs {dict((str(k), v) for k, v in b.fimap().items())}")
     data = {}
     for (c, iv), va in a.data.items():
         asg = dict(zip(a.fi, iv))
@@ -266,10 +273,10 @@ def t_neg(a: T) -> T:
     return r
 
 
-def t_mul(a: T, b: T) -> T:
+def t_mul(a: T, b: T, repeated=True) -> T:
     ra, rb = len(a.shape), len(b.shape)
     if ra == 0 and rb == 0:
-        r = _binary(a, b, sym.mul, True)
+        r = _binary(a, b, sym.mul, repeated)
     elif ra == 0:
         r = _binary(a, b, sym.mul, True, shape=b.shape, comp_of=lambda c: ((), c))
     elif rb == 0:
@@ -330,7 +337,9 @@ def t_fn(name, *args) -> T:
     return a.map(lambda v: sym.fn(name, v, *others))
 
 
-def t_index(a: T, key) -> T:
+def t_index(a: T, key, repeated="sum") -> T:
+    """repeated='sum': A[i,i] is the trace (the [] operator); 'share': node-level Indexed keeps the
+    repeated index free (diagonal) - the summation is a separate IndexSum node."""
     if not isinstance(key, tuple):
         key = (key,)
     # expand Ellipsis
@@ -373,7 +382,11 @@ def t_index(a: T, key) -> T:
         if len(occ) == 2 or i in afi:
             if i in afi and afi[i] != occ[0][0]:
                 raise SemError("repeated index over different dimensions")
-            summed.append((i, occ[0][0]))
+            if repeated == "share":
+                if i not in afi:
+                    free_new.append((i, occ[0][0]))
+            else:
+                summed.append((i, occ[0][0]))
         else:
             free_new.append((i, occ[0][0]))
     keep_old = [(i, d) for i, d in afi.items() if i not in dict(summed)]
